@@ -4,8 +4,8 @@ C20 / C12 (self-intersection)  `find_self_intersection_point` and its recursion 
 
 * `in_loop_cases`: whatever the clipper is, an answer of the recursion is (a) the out-of-fuel marker or (b) the answer the last arm
   computes for a dyadic subsection whose halves are both loops or both not.  Before repair F25 (f1b829b) there was a third case, the
-  `unimplemented!` of the (Loop, Loop) arm, reached exactly when some dyadic subsection splits into two loops at its middle: that
-  theorem located the only route to the panic, a directed search then found inputs taking it (nearly cusped loops).
+  `unimplemented!` of the (Loop, Loop) arm, reached exactly when some dyadic subsection splits into two loops at its middle: that statement
+  showed the only route to the panic, a directed search then found inputs taking it (nearly cusped loops).
 * `terminal_some_spec`: an answer of the last arm is the image under the two halves' `t_for_t` of a pair the clipper returned (or of
   (0, 1) when the clipper returned nothing and the two far ends are near each other).
 * `self_intersection_ordered`: hence, when the clipper's parameters lie in 0..1, the answer `(t1, t2)` of
